@@ -165,9 +165,9 @@ def classify(fail, events, ann, findings):
             if (not ann and not dof and all_writes and lvl == "o" and arg[1] == 0 and arg[2] == 0
                     and arg[3] == "x" and cont == 1):
                 return fd["id"]
-        elif c == "inc-to-max-depth":
-            # gh_inc argument of a cell loop that goes to the maximum halo depth
-            if not dof and lvl == "m" and arg[1] == 3:
+        elif c == "inc-to-max-depth-h1":
+            # gh_inc argument of a cell loop that goes to the maximum halo depth, mesh halo depth 1
+            if not ann and not dof and lvl == "m" and arg[1] == 3 and H == 1 and cont == 1:
                 return fd["id"]
     return None
 
